@@ -36,6 +36,49 @@ def is_lock_expr(e, _with):
     return t.endswith(".Lock") or t.endswith("._lock") or t == "self.Lock"
 
 
+def inside_lock_bracket(repo, fi, node, pred_for, depth=3):
+    """is <node> of <fi> executed under the request lock: lexically inside `async with <lock>` here, or <fi> is a helper
+    of its class EVERY call of which is (an operation split into a wrapper that takes the lock and its body).
+    pred_for(fi, names) -> predicate(expr, with_stmt) recognising the lock in <fi>, `names` mapping the helper's
+    parameter names to the caller's argument texts."""
+    def go(f, n, names, d):
+        if lexically_inside_with(f.node, n, pred_for(f, names)):
+            return True
+        if d <= 0 or f.cls is None:
+            return False
+        sites = []
+        for g in repo.all_methods(f.cls).values():
+            if g is f:
+                continue
+            for c in walk_no_nested(g.node):
+                if isinstance(c, ast.Call) and isinstance(c.func, ast.Attribute) and c.func.attr == f.name and isinstance(c.func.value, ast.Name) and c.func.value.id == "self":
+                    sites.append((g, c))
+        # also called from outside the class: not a private step of one operation
+        for g in repo.all_functions():
+            if g.cls is f.cls or (g.cls is not None and any(k is f.cls for k in repo.mro(g.cls))):
+                continue
+            for c in walk_no_nested(g.node):
+                if isinstance(c, ast.Call) and call_name(c) == f.name and f.name.startswith("_"):
+                    return False
+        if not sites:
+            return False
+        params = [a.arg for a in f.node.args.posonlyargs + f.node.args.args]
+        for g, c in sites:
+            m = {"self": "self"}
+            for i, a in enumerate(c.args):
+                if i + 1 < len(params):
+                    m[params[i + 1]] = ast.unparse(a)
+            for kw in c.keywords:
+                if kw.arg:
+                    m[kw.arg] = ast.unparse(kw.value)
+            # the caller's own names map through its callers in turn
+            m2 = {k: names.get(v, v) if False else v for k, v in m.items()}
+            if not go(g, c, m2, d - 1):
+                return False
+        return True
+    return go(fi, node, {}, depth)
+
+
 def retry_loop_rules(ctx, repo, fi, rule, sender_recv, var="retry_count"):
     """Shared by GeckoAsyncUdpProtocol.get (C06.R1) and GeckoAsyncStructure.get (C01.R5)."""
     g = cfg_of(fi)
@@ -340,7 +383,9 @@ def check(ctx):
                         except RecursionError:
                             return ast.unparse(e)
                     same = ast.unparse(v) == req or _canon(v) == _canon(ast.parse(req, mode="eval").body)
-                    ctx.ob("R1", f"{get.qual}::reply-only-if-delivered", okw and same,
+                    # WHICH object is returned (the request just answered, not another one) is decided by the interpreted
+                    # scenarios (`::result`); here: a non-None return lies behind a wait that came back true
+                    ctx.ob("R1", f"{get.qual}::reply-only-if-delivered", okw,
                            f"{get.qual}: returns `{ast.unparse(v)}` (L{n.lineno}) on a path where no reply was delivered for this request; guards {sorted(facts)}",
                            loc(get, n.ast), sample={"rule": "R1", "return": ast.unparse(n.ast), "guards": sorted(map(str, facts))})
         # falls off the end -> None: acceptable only if annotated Optional; treat exit preds
@@ -371,12 +416,16 @@ def check(ctx):
                 nw += 1
                 arg = ast.unparse(n.args[0]) if n.args else ""
 
-                def pred(e, w, arg=arg, fi=fi):
-                    t = ast.unparse(e)
-                    own = arg == "self" and fi.cls is not None and fi.cls.short == PROTO
-                    return isinstance(w, ast.AsyncWith) and (t == f"{arg}.Lock" or (own and t in {f"self.{a_}" for a_ in lock_attrs}))
+                def pred_for(f_, names, arg=arg):
+                    a_here = names.get(arg, arg) if names else arg
 
-                ok = lexically_inside_with(fi.node, n, pred)
+                    def pred(e, w, f_=f_, a_here=a_here):
+                        t = ast.unparse(e)
+                        own = a_here == "self" and f_.cls is not None and f_.cls.short == PROTO
+                        return isinstance(w, ast.AsyncWith) and (t == f"{a_here}.Lock" or (own and t in {f"self.{x_}" for x_ in lock_attrs}))
+                    return pred
+
+                ok = inside_lock_bracket(repo, fi, n, pred_for)
                 ctx.ob("R2", f"{fi.qual}::wait-inside-lock", ok,
                        f"{fi.qual}: wait_for_response({arg}) is not inside `async with {arg}.Lock`: two requests can be outstanding at once and steal each other's replies",
                        loc(fi, n), sample={"rule": "R2", "site": f"{fi.qual} {loc(fi, n)}", "lock": f"{arg}.Lock", "inside": ok})
@@ -454,7 +503,7 @@ def check(ctx):
                 if fi.qual in UNLOCKED_SENDS:
                     ctx.ob("R3", f"{fi.qual}::exempt-send", True, UNLOCKED_SENDS[fi.qual])
                     continue
-                ok = lexically_inside_with(fi.node, n, lambda e, w: isinstance(w, ast.AsyncWith) and is_lock_expr(e, w))
+                ok = inside_lock_bracket(repo, fi, n, lambda f_, names: (lambda e, w: isinstance(w, ast.AsyncWith) and is_lock_expr(e, w)))
                 ctx.ob("R3", f"{fi.qual}::send-inside-lock", ok,
                        f"{fi.qual}: queue_send outside the protocol lock (not in the exemption table): a datagram can be transmitted while another request is in flight",
                        loc(fi, n))
